@@ -80,7 +80,9 @@ chk(
     "undelayed head not delayed, close unblocks a parked get, later get returns the end marker. Holds park consumer/put/remove/"
     "close at every executed line while the other operations run. A third of the random scripts use ephemeral, value-identified "
     "elements (the rig keeps no reference, so a new element may get the address of one that has just gone; 'replace' = remove + put "
-    "with nothing allocated in between); predicates that raise; a bulk case with 40 000 (thorough 300 000) elements waiting at once.",
+    "with nothing allocated in between); another third use 'twins' - elements that are all equal (==, same hash) but distinct objects, "
+    "told apart by the checker through an identity tag - with directed scripts in which the head a consumer sleeps on is removed and an equal "
+    "element takes its place; predicates that raise; a bulk case with 40 000 (thorough 300 000) elements waiting at once.",
     "Trusted: virtual clock + counting Condition (harness), offline checker. Liveness is judged logically (consumer parked in the "
     "condition with elements outstanding / after close), never by wall clock; a rig that cannot reach quiescence is inconclusive.",
 )
@@ -213,7 +215,9 @@ chk(
     "handler and stop() from outside / from the callback. Violations: a call that does not return with all involved threads parked "
     "identically in 3 samples (deadlock), a library thread alive 50 ms after the final stop()+join() returned, a thread kept alive after "
     "a completed stop() until a further stop(), an undocumented exception; an emitter in the middle of a 6.5 s unit of work when "
-    "stop()/unschedule() arrives (the call must wait for it).",
+    "stop()/unschedule() arrives (the call must wait for it); a fifth of the inotify sequences watch p2 with follow_symlink=True while p2 "
+    "holds a link that resolves to p2 itself (self -> . or s0/up -> ..), so the root's own path is re-keyed to an alias in the "
+    "book-keeping. A batch ends after a call that never finished (its thread would contaminate later cases).",
     "Liveness restated as bounded progress + logical stuck-state test; the watchdog alone firing is inconclusive. Real kernel, not a "
     "simulated one; virtual clock not used here (C08/C17 use it).",
 )
@@ -251,7 +255,12 @@ chk(
     "Exploration: paced histories over names {a, e-acute, snowman, bytes ff fe '.txt', fd} with the root spelled as str / bytes / "
     "pathlib.Path, absolute / relative / './x' / 'y/../x' / trailing slash, recursive or not, inotify (normal, full, small reads) and polling; every "
     "non-empty src_path/dest_path of every delivered event (primary, synthetic, parent-directory) must have the scheduled path's type "
-    "and be the root as given joined with the real relative name of an entry that existed.",
+    "and be the root as given joined with the real relative name of an entry that existed, and must convert back with os.fsencode. "
+    "Also: names that are string prefixes of each other; two workers (inotify, polling) whose interpreter has the filesystem encoding "
+    "'ascii' (LC_ALL=C, PYTHONUTF8=0), where also valid UTF-8 names must come back surrogate-escaped; a followed symbolic link "
+    "(follow_symlink=True, recursive) to a directory tree outside the root, with the link itself and the real directories holding it renamed "
+    "and never-used file names created in every directory of the target after each rename - the only correct path is root / current link "
+    "name / relative name, whatever the timing, because the reader resolves paths in kernel order.",
     "Trusted: the harness's record of names (model of the tree incl. everything that ever existed in the session).",
 )
 
